@@ -332,7 +332,7 @@ def rule_c(ctx):
                                         if outs != {want}:
                                             bad += 1
                                             sig = (c1, m1, t1, c2, m2, t2, tuple(sorted(outs)))
-                                            if len(first_bad) < 4 and sig not in seen_sig:
+                                            if len(first_bad) < 2 and sig not in seen_sig:
                                                 seen_sig.add(sig)
                                                 first_bad.append(("%s %s %s" % ("" if c1 else "[or]", m1 or "", t1 or "(no type)"), "%s %s %s" % ("" if c2 else "[or]", m2 or "", t2 or "(no type)"),
                                                                   "neg-subset=%s fewer-subset=%s" % (s0, s1), sorted(outs), want))
